@@ -30,6 +30,20 @@ def small_regexes(max_atoms):
     return out
 
 
+def nested_regexes():
+    """A quantifier applied to a group whose body is itself quantified, nullable or an alternation."""
+    out = []
+    for a in ["a", "[ab]", "[^a]"]:
+        for s1 in SUFF:
+            for s2 in SUFF[1:]:
+                out.append(f"x({a}{s1}){s2}y")
+    for body in ["a|b", "a|b?", "a*|b", "ab?", "a?b?", "a*b*", "(a?)*", "[ab]c*"]:
+        for s2 in SUFF[1:]:
+            out.append(f"x({body}){s2}y")
+            out.append(f"({body}){s2}")
+    return out
+
+
 def random_regex(rng, depth=0):
     def atom(d):
         k = rng.random()
@@ -92,14 +106,23 @@ if __name__ == "__main__":
     else:
         # every AST up to two atoms, and a sample of the 117 649 three-atom ones
         res = res + rng.sample(small_regexes(3)[len(res):], 6000)
+    nest = nested_regexes()
+    if t == "quick":
+        nest = rng.sample(nest, 120)
     progs = []
     for i, r in enumerate(res):
-        progs.append({"name": f"re-{i}", "src": f"parser {{\n  /{r}/;\n}}\n", "args": ["-feof-support"], "feats": {}})
+        progs.append({"name": f"re-{i}", "src": f"parser {{\n  /{r}/;\n}}\n", "args": ["-feof-support"], "feats": {}, "must_accept": True})
+    for i, r in enumerate(nest):
+        progs.append({"name": f"rn-{i}", "src": f"parser {{\n  /{r}/;\n}}\n", "args": ["-feof-support"], "feats": {}, "must_accept": True})
     for i in range(250 if t == "quick" else 4000):
         progs.append({"name": f"rr-{i}", "src": f"parser {{\n  /{random_regex(rng)}/;\n}}\n", "args": ["-feof-support"], "feats": {}})
     for i in range(80 if t == "quick" else 1000):
         progs.append({"name": f"rb-{i}", "src": f"parser {{\n  b/{random_binary_regex(rng)}/;\n}}\n", "args": ["-feof-support"], "feats": {}})
+    # regexes that failed once (fixed defects): always in the population
+    for i, (form, r) in enumerate([("b", "ff([6f-92]+[^00-72][^2e-fe]{2,2})+"), ("b", "[^00-72][^2e-fe]|[^2e-fe]00"),
+                                   ("", "x[^a-z]*[^\\x00-`{-\\xff]y")]):
+        progs.insert(i, {"name": f"fixed-{i}", "src": f"parser {{\n  {form}/{r}/;\n}}\n", "args": ["-feof-support"], "feats": {}})
     for i, p in enumerate(progs):
         p["also_O3"] = (i % 4 == 0)
     refcheck.run("C07", THEOREMS, "NmfuProps", progs,
-                 "every regex AST up to 2 atoms (quick: a sample; thorough: plus 6000 of the three-atom ones) over {a,b,c,[ab],[^a],.,\\d} x {?,*,+,{2},{1,2},{2,}} (quick: a sample), random larger text regexes with classes / inverted sets / ranges, random binary regexes with high bytes; one-statement programs with EOF support; distinct accepted programs with at least 3 states")
+                 "quantified groups with quantified / nullable / alternation bodies (quick: a sample); every regex AST up to 2 atoms (quick: a sample; thorough: plus 6000 of the three-atom ones) over {a,b,c,[ab],[^a],.,\\d} x {?,*,+,{2},{1,2},{2,}} (quick: a sample), random larger text regexes with classes / inverted sets / ranges, random binary regexes with high bytes; one-statement programs with EOF support; distinct accepted programs with at least 3 states")
